@@ -39,6 +39,11 @@ func c09Gen(r *rand.Rand, tier string) []spec.Case {
 		add("grpcmux", "accept-twice:"+s)
 		add("grpcmux", "late-accept-during-other-knock:"+s)
 	}
+	// the plugin-side MuxBroker of a real RPCServer facing a peer that speaks the wire protocol by hand: streams
+	// whose id header is truncated before they are closed, with genuine dispenses in between and afterwards
+	for _, n := range []int{4, 12, 30} {
+		out = append(out, spec.Case{Kind: "muxraw", P: spec.MustJSON(spec.C09Case{Kind: "muxraw", Steps: []string{fmt.Sprintf("raw-truncated-headers:%d", n)}})})
+	}
 	// random histories of length 2-4 (the stale-knock step of grpcmux only in its dedicated single-step cases above)
 	n := 12
 	if tier == "thorough" {
@@ -123,6 +128,10 @@ func c09Judge(c spec.Case, evs []spec.Event, d *Death) CaseResult {
 		}
 		// unmatched operations must fail, not succeed
 		switch name {
+		case "raw-truncated-headers":
+			for _, e := range s.Errs {
+				viol("broker-blocked-by-truncated-headers", fmt.Sprintf("step %s: %s", s.Step, e))
+			}
 		case "dial-noaccept", "dial-twice":
 			for _, e := range s.Errs {
 				if e == "" {
@@ -244,7 +253,7 @@ func init() {
 		ID: "C09", Level: "exploration", Race: true, TestName: "TestC09",
 		Gen: c09Gen, Batch: 64, Children: 4, PerCase: 3 * time.Second, Base: 240 * time.Second,
 		Judge: c09Judge, Finish: c09Finish,
-		Rule: "cases = histories over {dial-noaccept, accept-nodial, dial-twice (same id), staggered-dials-then-accept (second dial half-way through the first one's window, then an unmatched accept after the first expired), dial-timeout-then-accept (late accept), accept-timeout-then-dial (late dial), accept-at-expiry (Accept lined up with the expiry of a parked connection through hook points)} x acting side, on MuxBroker, GRPCBroker and multiplexed GRPCBroker, each on its own in-process connection pair (both ends real go-plugin code), followed by a matched pair on a fresh id in each direction and a close; every single step per kind and side plus random histories of length 2-4. Class = kind + multiset of steps",
+		Rule: "cases = histories over {dial-noaccept, accept-nodial, dial-twice (same id), staggered-dials-then-accept (second dial half-way through the first one's window, then an unmatched accept after the first expired), dial-timeout-then-accept (late accept), accept-timeout-then-dial (late dial), accept-at-expiry (Accept lined up with the expiry of a parked connection through hook points), raw-truncated-headers (kind muxraw: a hand-rolled yamux peer of an in-process RPCServer opens n streams and closes each after 0..3 header bytes, with genuine Dispense+dial pairs in between and after)} x acting side, on MuxBroker, GRPCBroker and multiplexed GRPCBroker, each on its own in-process connection pair (both ends real go-plugin code), followed by a matched pair on a fresh id in each direction and a close; every single step per kind and side plus random histories of length 2-4. Class = kind + multiset of steps",
 		Assumptions: []string{
 			"nominal bound 5 s; a call counts as hung only after 40 s (2 x H, H = 20 s) for steps and 20 s for fresh pairs",
 			"for GRPCBroker an unmatched accept is an AcceptAndServe that is stopped through its server after 300 ms (Accept itself returns a listener at once)",
